@@ -500,7 +500,7 @@ def _spaces(tier):
                "int32, uint8 / list of ints, through the constructor, the value setter and set_value, converted (and back): "
                "36x36 systems x 2 dimensions x 9 carriers x 3 routes", gen_carrier, 36 * 36 * len(dims_c) * len(CARRIERS) * len(ROUTES)))
 
-    dims_s = cube if tier == "thorough" else [(1, 0, 0), (2, -1, 1), (0, -2, 0), (-3, 0, 1)]
+    dims_s = c1 if tier == "thorough" else [(1, 0, 0), (2, -1, 1), (0, -2, 0), (-3, 0, 1)]
 
     def gen_setat():
         for a in S36:
